@@ -49,6 +49,7 @@ mod verif_kani {
         kani::assume(len <= 16 && len != 8);
         let mut b = [0u8; 16];
         write_u64_be(&mut b[..len], kani::any());
+        kani::cover!(true, "VERIF_RETURNED");
     }
 
     /// RFC 9180 §5.1 / §4.1 suite identifiers of all 48 suites, against the byte strings written out by hand:
